@@ -74,10 +74,35 @@ def xyz2rgb := xyz2rgbWith invLowWhenBelow
 def xyz2lab := xyz2labWith labSmallWhenBelow labKneeExp
 def rgb2lab (rgb : List Float) : List Float := xyz2lab (rgb2xyz rgb)
 
-/-- specification: the sRGB / CIE definitions (linear segment below the knee, cube root above `(6/29)^3`) -/
-def rgb2xyzSpec := rgb2xyzWith true
-def xyz2rgbSpec := xyz2rgbWith true
-def rgb2labSpec (rgb : List Float) : List Float := xyz2labWith true 3 (rgb2xyzSpec rgb)
+/-! ### specification: the sRGB (IEC 61966-2-1) / CIE L*a*b* definitions with the standards' own numbers,
+written out independently of the extracted tables (`C20_model_is_standard` proves the two coincide
+for the tree the tables were extracted from) -/
+
+def stdM : List (List Float) := [[0.4124, 0.3576, 0.1805], [0.2126, 0.7152, 0.0722], [0.0193, 0.1192, 0.9505]]
+def stdMInv : List (List Float) := [[3.2406, -1.5372, -0.4986], [-0.9689, 1.8758, 0.0415], [0.0557, -0.204, 1.057]]
+
+def srgbToLinearStd (c : Float) : Float :=
+  let x := c / 255.0
+  if x ≤ 0.04045 then x / 12.92 else Float.pow ((x + 0.055) / (1.0 + 0.055)) 2.4
+
+def linearToSrgbStd (v : Float) : Float :=
+  (if v ≤ 0.0031308 then 12.92 * v else (1.0 + 0.055) * Float.pow v (1.0 / 2.4) - 0.055) * 255.0
+
+def labFStd (t : Float) : Float :=
+  if t ≤ Float.pow (6.0 / 29.0) (Float.ofNat 3) then ((1.0 / 3.0) * (29.0 / 6.0) * (29.0 / 6.0)) * t + 4.0 / 29.0
+  else Float.pow t (1.0 / 3.0)
+
+def rgb2xyzSpec (rgb : List Float) : List Float := matVec stdM (rgb.map srgbToLinearStd)
+def xyz2rgbSpec (xyz : List Float) : List Float := (matVec stdMInv xyz).map linearToSrgbStd
+def xyz2labSpec (xyz : List Float) : List Float :=
+  match xyz with
+  | [x, y, z] =>
+    let fx := labFStd (x / 0.95047)
+    let fy := labFStd (y / 1.0)
+    let fz := labFStd (z / 1.08883)
+    [116.0 * fy - 16.0, 500.0 * (fx - fy), 200.0 * (fy - fz)]
+  | _ => []
+def rgb2labSpec (rgb : List Float) : List Float := xyz2labSpec (rgb2xyzSpec rgb)
 
 /-- `rgb2sepia`: matrix product in double, cast to float32, clipped to [0,255], cast to uint8 -/
 def sepia (rgb : List Float) : List Nat :=
